@@ -298,21 +298,24 @@ impl HashJoinOperator {
                 }
             }
             _ => {
-                // Emit nulls for build side (left outer join case)
-                if !self.build_chunks.is_empty() {
-                    let build_col_count = self.build_chunks[0].column_count();
-                    for col_idx in 0..build_col_count {
-                        let dst_col =
-                            builder
-                                .column_mut(probe_col_count + col_idx)
-                                .ok_or_else(|| {
-                                    OperatorError::ColumnNotFound(format!(
-                                        "output column {}",
-                                        probe_col_count + col_idx
-                                    ))
-                                })?;
-                        dst_col.push_value(Value::Null);
-                    }
+                // Emit nulls for build side (left outer join case). If the build side
+                // did not produce a single chunk, its column count is inferred from the
+                // output schema (as NestedLoopJoinOperator does).
+                let build_col_count = self.build_chunks.first().map_or_else(
+                    || self.output_schema.len().saturating_sub(probe_col_count),
+                    DataChunk::column_count,
+                );
+                for col_idx in 0..build_col_count {
+                    let dst_col =
+                        builder
+                            .column_mut(probe_col_count + col_idx)
+                            .ok_or_else(|| {
+                                OperatorError::ColumnNotFound(format!(
+                                    "output column {}",
+                                    probe_col_count + col_idx
+                                ))
+                            })?;
+                    dst_col.push_value(Value::Null);
                 }
             }
         }
